@@ -51,7 +51,9 @@ def shared_attr(s, D):
          "pos_arg": '"[{}]", _variant', "pos_arg_bare": '"{}", _variant', "alias": '"[{v}]", v = _variant',
          "alias_bare": '"{v}", v = _variant', "text": '"shared"', "field": f'"f:{f0}"',
          "variant_field": f'"{{_variant}}/{f0}"', "dbg": '"{_variant:?}"', "padded": '"{_variant:>5}"',
-         "pos_dbg": '"{:?}", _variant'}[s]
+         "pos_dbg": '"{:?}", _variant', "twice_padded": '"{_variant}|{_variant:>6}"', "alias_dbg": '"{v:?}", v = _variant',
+         # a positional placeholder may land on an argument that carries an alias (format_args! counts every argument)
+         "pos_after_alias": '"[{}]", v = _variant'}[s]
     return f"#[{a}({m})]\n" if m else ""
 
 
